@@ -16,4 +16,4 @@ extra_bins() {
 }
 variant_of() { local p; p="$(parts_of "$1")"; echo "${p%%:*}"; }
 pkg_of() { local p; p="$(parts_of "$1" | cut -d' ' -f1)"; p="${p#*:}"; echo "${p%%:*}"; }
-ALL_CHECKS="C01 C02 C03 C04 C05 C06 C07 C08 C10 C11 C12 C13 C14 C15 C16 C17 C18 C19 C20"
+ALL_CHECKS="C01 C02 C03 C04 C05 C06 C07 C08 C09 C10 C11 C12 C13 C14 C15 C16 C17 C18 C19 C20"
